@@ -6,10 +6,9 @@
    asyncNextFrame with the Pong a Ping queues.  Peer events, application calls and polls come in any order; a poll
    accepts any number of bytes per write call (partial writes).  Frames are opaque byte strings here (C16), message
    reassembly and the close handshake are C06/C08.
-   PARTIAL: the theorems speak about flush completions and wire bytes; that a read in flight is always either armed in
-   the adapter or waiting for a flush (never lost) is shown by the correspondence run and the refutation below, not as
-   an invariant; fuel exhaustion of the model is reported by the run. *)
-From Sonic Require Import Base.Prelude Model.WsAsync Proofs.WsAsyncProofs.
+   PARTIAL: frames are opaque and only the Active / ClosedByUs part of the stream state is in this model; fuel exhaustion
+   of the model is reported by the run. *)
+From Sonic Require Import Base.Prelude Model.WsAsync Proofs.WsAsyncProofs Proofs.WsAsyncRead.
 Local Open Scope Z_scope.
 
 Theorem C17_invariant_every_step : forall s o, cinv [] s -> cinv [] (wastep s o).
@@ -26,6 +25,16 @@ Theorem C17_wire_in_order_and_callbacks_exactly_once : forall ops,
   (forall k, cnt k (a_fstart s) = cnt k (a_fdone s) + cnt k (outstanding s)).
 Proof. exact wire_prefix_and_callbacks_exact. Qed.
 Print Assumptions C17_wire_in_order_and_callbacks_exactly_once.
+
+(* A read in flight is never lost: for every history, while an AsyncNextMessage is in flight either the adapter's read reactor
+   is registered with the poller, or the read's continuation is held by the flush in flight (as its completion or as a waiter)
+   - and by the theorem above that continuation runs exactly once when the flush completes.  Neither direction starves the
+   other. *)
+Theorem C17_read_in_flight_is_never_lost : forall ops,
+  let s := warun (wa_init true) ops in
+  a_fuel_out s = false -> a_rd s <> None -> a_rwait s = true \/ 0 < cnt KRead (outstanding s).
+Proof. exact read_in_flight_is_never_lost. Qed.
+Print Assumptions C17_read_in_flight_is_never_lost.
 
 (* The structure before the repair is refuted: the application write replaces the Pong flush in the adapter and the
    continuation of the read is lost for good. *)
@@ -45,4 +54,11 @@ Example C17_demo :
              [WaRead 1 70000; WaPeer 9 [7]; WaPoll 2; WaWrite 100 [1; 2; 3]; WaPoll 2; WaPoll 2; WaPoll 2; WaPoll 2; WaPoll 2; WaPoll 2;
               WaPeer 1 [65]; WaPoll 2; WaPoll 2] in
   rev (a_log s) = [(100, 0, []); (1, 1, [65])] /\ a_wire s = [138; 1; 7; 130; 3; 1; 2; 3] /\ a_rd s = None /\ a_fuel_out s = false.
+Proof. vm_compute. repeat split; reflexivity. Qed.
+
+(* Non-vacuity of the never-lost theorem: while the Pong a Ping triggered is still being written (2 of its 3 bytes taken), the
+   read is in flight, the read reactor is not armed, and the read's continuation is the completion of the flush in flight. *)
+Example C17_read_waits_for_the_pong_flush :
+  let s := warun (wa_init true) [WaRead 1 70000; WaPeer 9 [7]; WaPoll 2] in
+  a_rd s = Some (1, 70000) /\ a_rwait s = false /\ outstanding s = [KRead] /\ a_fuel_out s = false /\ cnt KRead (outstanding s) = 1.
 Proof. vm_compute. repeat split; reflexivity. Qed.
